@@ -26,6 +26,12 @@ def run(replay=None):
         'converting back reproduces the original. Correspondence: configuration, the WHOLE storage (padding cells included) and the dump of the converted field equal those of the Coq conversion model '
         '(Convert.convert = the copy loop of Relayout.v, for which C05_relayout_preserves / C05_relayout_back are proved over any two layouts). Builds: assertions + ASan/UBSan, and -O2 -DNDEBUG. '
         'A case = (source type, target type, extents, contents); non-trivial = more than one cell; distinct by those.')
+    with core.Lock('coq'):
+        rep, tlog = core.translate()
+    for u in rep['untranslatable']:
+        if u['group'] == 'Copy':
+            chk.obligation_broken('reading of ' + u['name'], u['why'])
+    chk.cov['copy_schemes_in_source'] = rep.get('copy', {}).get('schemes') if isinstance(rep.get('copy'), dict) else None
     chk.prove('Properties_C05.v')
     r = chk.rng
     pairs = []
